@@ -180,6 +180,8 @@ class Report:
     def violation(self, rule, key, msg, where=None, detail=None):
         """key: stable identifier without line numbers, e.g. 'make_call_frame:exit=Result(InvalidExtDelegateCallTarget):open'"""
         full = '%s:%s' % (rule, key)
+        if any(v['key'] == full for v in self.violations):
+            return      # one report per instance key
         self.instances.append((rule, key, 'violation', msg, True))
         self.violations.append({'rule': rule, 'key': full, 'msg': msg, 'where': where, 'detail': detail})
 
